@@ -382,3 +382,306 @@ theorem infix_core (s : Sh) (σ σ' : St) (consumed : List Tok) (cur : Lvl) (stk
     · intro f hf; exact hgood.noOpn f (by rw [hpre]; simp [hf])
 
 end Occa.Expr
+
+namespace Occa.Expr
+open Occa.Gen
+
+/-- the frame pushed by an operator after an operand owns that operand -/
+theorem infix_finish (s s' : Sh) (σ : St) (consumed : List Tok) (cur : Lvl) (stk : List Lvl)
+    (hinv : Inv s σ consumed cur stk) (o o' : Op) (pre' : List Frame) (e' : Expr) (fr : Frame)
+    (hfs : FramesOk (pre' ++ baseFrames cur.base)) (hcl : colonLu e' = false)
+    (hnp : ∀ f, (pre' ++ baseFrames cur.base).head? = some f → f.isPost = false)
+    (htk : scopeToks (pre' ++ baseFrames cur.base) (some e') = scopeToks cur.fs cur.top)
+    (hno : ∀ f ∈ pre', f.isOpn = false)
+    (hfr1 : fr.outs = [e']) (hfr2 : fr.toks = printToks e' ++ [.op o]) (hfr3 : fr.node = { op := o' })
+    (hfr4 : fr.ok) (hfr5 : fr.isOpn = false)
+    (hstack : s'.stack = s.stack) (hprev : s'.prev = some (.op o')) (hce : s'.prevCastEnd = false)
+    (hcont : s'.content = .other)
+    (hmode : if s'.needOperand then PrevE s' { cur with pre := fr :: pre', top := none }
+             else PrevO s' { cur with pre := fr :: pre', top := none })
+    (hpend : s'.pendingQ = questCount (fr :: (pre' ++ baseFrames cur.base))) :
+    Inv s' { σ with cur := { σ.cur with out := scopeOut (pre' ++ baseFrames cur.base) (some e'),
+                                        ops := { op := o' } :: scopeOps (pre' ++ baseFrames cur.base) },
+                    prev := some (.op o'), prevCastEnd := false }
+        (consumed ++ [.op o]) { cur with pre := fr :: pre', top := none } stk := by
+  obtain ⟨hrep, hgood⟩ := hinv.levels.cur_rep
+  have hfs' : ({ cur with pre := fr :: pre', top := none } : Lvl).fs = fr :: (pre' ++ baseFrames cur.base) := rfl
+  constructor
+  · rw [hstack]
+    apply hinv.levels.replaceCur
+    · constructor
+      · show scopeOut (pre' ++ baseFrames cur.base) (some e') = scopeOut (fr :: (pre' ++ baseFrames cur.base)) none
+        simp [scopeOut, hfr1]
+      · show _ :: scopeOps (pre' ++ baseFrames cur.base) = scopeOps (fr :: (pre' ++ baseFrames cur.base))
+        simp [scopeOps, hfr3]
+    · refine ⟨⟨?_, ?_, ?_⟩, ?_, by simp⟩
+      · intro f hf; rw [hfs'] at hf; simp only [List.mem_cons] at hf; rcases hf with rfl | hf
+        · exact hfr4
+        · exact hfs.ok f hf
+      · intro f hf; rw [hfs'] at hf; simp only [List.tail_cons] at hf
+        cases hcf : pre' ++ baseFrames cur.base with
+        | nil => rw [hcf] at hf; simp at hf
+        | cons g gs =>
+          rw [hcf] at hf; simp only [List.mem_cons] at hf; rcases hf with rfl | hf
+          · exact hnp f (by rw [hcf]; rfl)
+          · exact hfs.post f (by rw [hcf]; simpa using hf)
+      · intro f hf e he; rw [hfs'] at hf; simp only [List.mem_cons] at hf; rcases hf with rfl | hf
+        · rw [hfr1] at he; simp at he; subst he; exact hcl
+        · exact hfs.nocolon f hf e he
+      · intro f hf; simp only [List.mem_cons] at hf; rcases hf with rfl | hf
+        · exact hfr5
+        · exact hno f hf
+    · rfl
+    · rfl
+  · rw [hinv.toks]
+    symm
+    apply allToks_replace
+    show scopeToks (fr :: (pre' ++ baseFrames cur.base)) none = scopeToks cur.fs cur.top ++ [Tok.op o]
+    rw [scopeToks_consFrame_none, hfr2, ← htk, scopeToks_some]; simp [List.append_assoc]
+  · exact hprev.symm
+  · exact hce.symm
+  · exact hmode
+  · exact hpend
+  · show ContentOk _ _
+    unfold ContentOk; rw [hcont]; simp
+
+end Occa.Expr
+
+namespace Occa.Expr
+open Occa.Gen
+
+theorem q_facts2 : ∀ o : Op, (o.ty == T.questionMark) = true →
+    has o.ty T.rightUnary = false ∧ has o.ty T.colon = false ∧ o.prec = 16 := by
+  intro o; revert o; exact forall_op (by decide +kernel)
+
+theorem bin_facts2 : ∀ o : Op, has o.ty T.binary = true → has o.ty T.colon = false := by
+  intro o; revert o; exact forall_op (by decide +kernel)
+
+theorem ru_facts2 : ∀ o : Op, has o.ty T.rightUnary = true → has o.ty T.colon = false ∧ o.prec = 2 := by
+  intro o; revert o; exact forall_op (by decide +kernel)
+
+/-- a binary operator, a postfix operator or `?` after an operand -/
+theorem step_infix (s s' : Sh) (σ σ' : St) (o : Op) (next : Option Tok) (consumed : List Tok)
+    (cur : Lvl) (stk : List Lvl) (hinv : Inv s σ consumed cur stk) (hreg : o ∈ registered)
+    (h1 : has o.ty T.pairStart = false) (h2 : has o.ty T.pairEnd = false) (hno : s.needOperand = false)
+    (o' : Op) (hres : resolveBy false o = some o') (hnc : (o'.ty == T.colon) = false)
+    (hsh : shStep s (.op o) next = some s') (hst : step σ (.op o) next = .ok σ') :
+    ∃ cur' stk', Inv s' σ' (consumed ++ [.op o]) cur' stk' := by
+  rw [shStep_op_plain s o next h1 h2, hno, hres] at hsh
+  simp only [Bool.false_eq_true, if_false, hnc] at hsh
+  obtain ⟨rf1, rf2, _, _, _, _, rf7, rf8⟩ := resolveBy_facts o hreg false o' hres
+  by_cases hq : (o'.ty == T.questionMark) = true
+  · -- `?`
+    simp only [hq, if_true, Option.some.injEq] at hsh
+    obtain ⟨q1, q2, q3⟩ := q_facts2 o' hq
+    obtain ⟨qo, _⟩ := ty_facts_q o' hq
+    have hnext : (has o.ty T.increment || has o.ty T.decrement) = true →
+        next.isNone = true ∨ isPairEndTok next = true ∨ isOperatorTok next = true := by
+      intro h; have := (rf7 h).2 rfl; rw [q1] at this; simp at this
+    obtain ⟨pre', e', hσ, c1, c2, c3, c4, c5, c6⟩ :=
+      infix_core s σ σ' consumed cur stk hinv hno o o' next hreg hres q2 (fun _ => by omega) hnext h1 h2 hst
+    subst hσ; subst hsh
+    let fr := Frame.quest { op := o' } e'
+    refine ⟨{ cur with pre := fr :: pre', top := none }, stk, ?_⟩
+    apply infix_finish s _ σ consumed cur stk hinv o o' pre' e' fr c1 c2 c3 c4 c6 rfl
+    · show printToks e' ++ [Tok.op .questionMark] = printToks e' ++ [Tok.op o]
+      rw [← rf1, qo, lexedOp_q]
+    · rfl
+    · exact hq
+    · rfl
+    · rfl
+    · rfl
+    · rfl
+    · rfl
+    · show PrevE _ _
+      refine ⟨rfl, fun f hf => by simp [Lvl.fs] at hf; subst hf; rfl, ?_⟩
+      simp only [Bool.false_eq_true, if_false]
+      exact Or.inr ⟨fr, pre' ++ baseFrames cur.base, rfl, rfl⟩
+    · show s.pendingQ + 1 = questCount (fr :: (pre' ++ baseFrames cur.base))
+      rw [hinv.pending, ← c5]; simp [questCount, fr, Frame.isOpn, Frame.isQuest]; omega
+  · simp only [hq, Bool.false_eq_true, if_false] at hsh
+    by_cases hb : has o'.ty T.binary = true
+    · -- binary
+      simp only [hb, if_true] at hsh
+      by_cases hcond : (!isPostfixTok s.prev || decide (o'.prec ≥ 2)) = true
+      · simp only [hcond, if_true, Option.some.injEq] at hsh
+        obtain ⟨b1, b2, _⟩ := ty_facts_bin o' hb
+        have hnext : (has o.ty T.increment || has o.ty T.decrement) = true →
+            next.isNone = true ∨ isPairEndTok next = true ∨ isOperatorTok next = true := by
+          intro h; have := (rf7 h).2 rfl; rw [b2] at this; simp at this
+        have hprec : isPostfixTok s.prev = true → o'.prec ≥ 2 := by
+          intro hp; simp [hp] at hcond; exact hcond
+        obtain ⟨pre', e', hσ, c1, c2, c3, c4, c5, c6⟩ :=
+          infix_core s σ σ' consumed cur stk hinv hno o o' next hreg hres (bin_facts2 o' hb) hprec hnext h1 h2 hst
+        subst hσ; subst hsh
+        let fr := Frame.bin { op := o' } e'
+        refine ⟨{ cur with pre := fr :: pre', top := none }, stk, ?_⟩
+        apply infix_finish s _ σ consumed cur stk hinv o o' pre' e' fr c1 c2 c3 c4 c6 rfl
+        · show printToks e' ++ [Tok.op (lexedOp o')] = printToks e' ++ [Tok.op o]
+          rw [rf1]
+        · rfl
+        · exact hb
+        · rfl
+        · rfl
+        · rfl
+        · rfl
+        · rfl
+        · show PrevE _ _
+          refine ⟨rfl, fun f hf => by simp [Lvl.fs] at hf; subst hf; rfl, ?_⟩
+          simp only [Bool.false_eq_true, if_false]
+          exact Or.inr ⟨fr, pre' ++ baseFrames cur.base, rfl, rfl⟩
+        · show s.pendingQ = questCount (fr :: (pre' ++ baseFrames cur.base))
+          rw [questCount_reducible fr _ rfl, c5]; exact hinv.pending
+      · simp [hcond] at hsh
+    · simp only [hb, Bool.false_eq_true, if_false] at hsh
+      by_cases hr : has o'.ty T.rightUnary = true
+      · -- postfix
+        simp only [hr, if_true] at hsh
+        by_cases hcond : (next.isNone || isPairEndTok next || isOperatorTok next) = true
+        · simp only [hcond, if_true, Option.some.injEq] at hsh
+          obtain ⟨r1, r2⟩ := ru_facts2 o' hr
+          have hnext : (has o.ty T.increment || has o.ty T.decrement) = true →
+              next.isNone = true ∨ isPairEndTok next = true ∨ isOperatorTok next = true := by
+            intro _; simp only [Bool.or_eq_true] at hcond
+            rcases hcond with (h | h) | h
+            · exact Or.inl h
+            · exact Or.inr (Or.inl h)
+            · exact Or.inr (Or.inr h)
+          obtain ⟨pre', e', hσ, c1, c2, c3, c4, c5, c6⟩ :=
+            infix_core s σ σ' consumed cur stk hinv hno o o' next hreg hres r1 (fun _ => by omega) hnext h1 h2 hst
+          subst hσ; subst hsh
+          let fr := Frame.post { op := o' } e'
+          refine ⟨{ cur with pre := fr :: pre', top := none }, stk, ?_⟩
+          apply infix_finish s _ σ consumed cur stk hinv o o' pre' e' fr c1 c2 c3 c4 c6 rfl
+          · show printToks e' ++ [Tok.op (lexedOp o')] = printToks e' ++ [Tok.op o]
+            rw [rf1]
+          · rfl
+          · exact hr
+          · rfl
+          · rfl
+          · rfl
+          · rfl
+          · rfl
+          · show PrevO _ _
+            refine ⟨rfl, Or.inr ⟨rfl, _, _, _, rfl⟩, Or.inr ⟨rfl, _, _, _, rfl, rfl⟩⟩
+          · show s.pendingQ = questCount (fr :: (pre' ++ baseFrames cur.base))
+            rw [questCount_reducible fr _ rfl, c5]; exact hinv.pending
+        · simp [hcond] at hsh
+      · simp [hr] at hsh
+
+end Occa.Expr
+
+namespace Occa.Expr
+open Occa.Gen
+
+theorem FramesOk.suffix {a b : List Frame} (h : FramesOk (a ++ b)) : FramesOk b := by
+  induction a with
+  | nil => simpa using h
+  | cons x xs ih => exact ih (by simpa using h.tail)
+
+theorem colon_facts2 : ∀ o : Op, (o.ty == T.colon) = true →
+    has o.ty T.ambiguous = false ∧ has o.ty T.colon = true := by
+  intro o; revert o; exact forall_op (by decide +kernel)
+
+theorem q_not_colon : ∀ o : Op, (o.ty == T.questionMark) = true → (o.ty == T.colon) = false := by
+  intro o; revert o; exact forall_op (by decide +kernel)
+
+/-- `:` after an operand, with a `?` pending in the scope -/
+theorem step_colon (s s' : Sh) (σ σ' : St) (o : Op) (next : Option Tok) (consumed : List Tok)
+    (cur : Lvl) (stk : List Lvl) (hinv : Inv s σ consumed cur stk)
+    (h1 : has o.ty T.pairStart = false) (h2 : has o.ty T.pairEnd = false) (hno : s.needOperand = false)
+    (hc : (o.ty == T.colon) = true)
+    (hsh : shStep s (.op o) next = some s') (hst : step σ (.op o) next = .ok σ') :
+    ∃ cur' stk', Inv s' σ' (consumed ++ [.op o]) cur' stk' := by
+  obtain ⟨ca, cc⟩ := colon_facts2 o hc
+  obtain ⟨co, _⟩ := ty_facts_c o hc
+  have hres := (resolve_nonAmb o σ.prev next σ.prevCastEnd false ca)
+  rw [shStep_op_plain s o next h1 h2, hno, hres.2] at hsh
+  have hnq : (o.ty == T.questionMark) = false := by rw [co]; decide
+  simp only [Bool.false_eq_true, if_false, hc, hnq, if_true] at hsh
+  by_cases hpq : s.pendingQ > 0
+  · simp only [hpq, if_true, Option.some.injEq] at hsh
+    rw [step_op_plain σ o next h1 h2, hres.1] at hst
+    have hmode := hinv.mode
+    simp only [hno, Bool.false_eq_true, if_false] at hmode
+    obtain ⟨hrep, hgood⟩ := hinv.levels.cur_rep
+    obtain ⟨hce, hm, _⟩ := hmode
+    cases hp : popFaster o σ.prev σ.cur.out σ.cur.ops with
+    | error x => simp [hp] at hst
+    | ok r =>
+      obtain ⟨out', ops'⟩ := r
+      simp only [hp, Except.ok.injEq] at hst
+      rw [hrep.1, hrep.2] at hp
+      have hqc : questCount cur.fs > 0 := by rw [← hinv.pending]; exact hpq
+      obtain ⟨dropped, n, c, fs', t, q1, q2, q3, q4, q5, q6⟩ :=
+        popColon_spec o σ.prev cc cur.fs hgood.frames cur.top hm hqc out' ops' hp
+      have hsplit : cur.pre ++ baseFrames cur.base = (dropped ++ [Frame.quest n c]) ++ fs' := by
+        rw [← Lvl.fs, q1]; simp
+      obtain ⟨pre', hfs', hpre⟩ := split_base cur.pre cur.base (dropped ++ [Frame.quest n c]) fs' hsplit
+        (fun f hf => by
+          simp at hf; rcases hf with hf | rfl
+          · exact reducible_notOpn (q2 f hf)
+          · rfl)
+      subst hfs'
+      have hnq' : (n.op.ty == T.questionMark) = true :=
+        hgood.frames.ok (Frame.quest n c) (by rw [q1]; simp)
+      obtain ⟨hnop, _⟩ := ty_facts_q n.op hnq'
+      let fr := Frame.colon { op := o } c t n.op
+      have hfsok : FramesOk (pre' ++ baseFrames cur.base) := by
+        have := hgood.frames; rw [q1] at this
+        have h3 : FramesOk ((dropped ++ [Frame.quest n c]) ++ (pre' ++ baseFrames cur.base)) := by simpa using this
+        exact h3.suffix
+      have hnotpost : ∀ f ∈ pre' ++ baseFrames cur.base, f.isPost = false := by
+        intro f hf
+        apply hgood.frames.post f
+        rw [q1]
+        cases dropped with
+        | nil => simpa using hf
+        | cons d ds =>
+          simp only [List.cons_append, List.tail_cons, List.mem_append, List.mem_cons]
+          exact Or.inr (Or.inr (List.mem_append.mp hf))
+      subst hsh; subst hst
+      refine ⟨{ cur with pre := fr :: pre', top := none }, stk, ?_⟩
+      have hfs' : ({ cur with pre := fr :: pre', top := none } : Lvl).fs = fr :: (pre' ++ baseFrames cur.base) := rfl
+      constructor
+      · apply hinv.levels.replaceCur
+        · constructor
+          · show out' = scopeOut (fr :: (pre' ++ baseFrames cur.base)) none
+            rw [q3]; simp [scopeOut, fr, Frame.outs]
+          · show _ :: ops' = scopeOps (fr :: (pre' ++ baseFrames cur.base))
+            rw [q4]; rfl
+        · refine ⟨⟨?_, ?_, ?_⟩, ?_, by simp⟩
+          · intro f hf; rw [hfs'] at hf; simp only [List.mem_cons] at hf; rcases hf with rfl | hf
+            · exact ⟨hc, hnq'⟩
+            · exact hfsok.ok f hf
+          · intro f hf; rw [hfs'] at hf; simp only [List.tail_cons] at hf
+            exact hnotpost f hf
+          · intro f hf e he; rw [hfs'] at hf; simp only [List.mem_cons] at hf; rcases hf with rfl | hf
+            · simp only [fr, Frame.outs, List.mem_cons, List.not_mem_nil, or_false] at he
+              rcases he with he | he
+              · rw [he]; simp only [colonLu]; exact q_not_colon n.op hnq'
+              · rw [he]; exact hgood.frames.nocolon (Frame.quest n c) (by rw [q1]; simp) c (by simp [Frame.outs])
+            · exact hfsok.nocolon f hf e he
+          · intro f hf; simp only [List.mem_cons] at hf; rcases hf with rfl | hf
+            · rfl
+            · exact hgood.noOpn f (by rw [hpre]; simp [hf])
+        · rfl
+        · rfl
+      · rw [hinv.toks]
+        symm
+        apply allToks_replace
+        show scopeToks (fr :: (pre' ++ baseFrames cur.base)) none = scopeToks cur.fs cur.top ++ [Tok.op o]
+        rw [scopeToks_consFrame_none, q5, co]; simp [fr, Frame.toks, List.append_assoc]
+      · rfl
+      · rfl
+      · show PrevE _ _
+        refine ⟨rfl, fun f hf => by simp [Lvl.fs] at hf; subst hf; rfl, ?_⟩
+        simp only [Bool.false_eq_true, if_false]
+        exact Or.inr ⟨fr, pre' ++ baseFrames cur.base, rfl, rfl⟩
+      · show s.pendingQ - 1 = questCount (fr :: (pre' ++ baseFrames cur.base))
+        rw [questCount_reducible fr _ rfl, hinv.pending, q6]; omega
+      · show ContentOk _ _
+        unfold ContentOk; simp
+  · simp [hpq] at hsh
+
+end Occa.Expr
